@@ -1579,6 +1579,8 @@ class ScenarioOutline(Scenario):
 
     def compute_status(self):
         skipped_count = 0
+        passed_count = 0
+        untested_count = 0
         for scenario in self._scenarios:    # -- AVOID: BUILD-SCENARIOS
             scenario_status = scenario.status
             this_status = OuterStatus.from_inner_status(scenario_status)
@@ -1586,9 +1588,20 @@ class ScenarioOutline(Scenario):
                 return this_status
             elif scenario_status == Status.skipped:
                 skipped_count += 1
+            elif scenario_status == Status.untested:
+                untested_count += 1
+            elif this_status == Status.passed:
+                passed_count += 1
         if skipped_count > 0 and skipped_count == len(self._scenarios):
             # -- ALL SKIPPED:
             return Status.skipped
+        if untested_count > 0:
+            # -- NOT EXECUTED (completely or partly): Never passed.
+            # SAME AS: ScenarioContainer.compute_status()
+            if passed_count > 0:
+                # -- TEST-RUN WAS ABORTED: Some passed, now untested -> FAILED.
+                return Status.failed
+            return Status.untested
         # -- OTHERWISE: ALL PASSED (some scenarios may have been excluded)
         return Status.passed
 
